@@ -12,6 +12,24 @@ VALUES = [('STRING', b'plain'), ('STRING', b''), ('STRING', b' lead and trail ')
           ('DATE', (5, 3, 2021)), ('REAL', '2.5'), ('REAL', '0.1'), ('REAL', '1234.5678'), ('REAL', '100.0'), ('REAL', '0.000001'), ('REAL', '-3.25')]
 SMALL = [VALUES[0], VALUES[1], VALUES[3], VALUES[8], VALUES[11], VALUES[14]]
 
+def rand_numeric(rng):
+    """numerals across magnitudes and around the 32/53/63-bit boundaries (REAL literals have no exponent form)"""
+    k = rng.randint(0, 5)
+    if k == 0:
+        base = rng.choice([2**31, 2**32, 2**53, 2**63, 10**9, 10**10, 10**15, 3 * 10**9])
+        n = base + rng.choice([-1, 0, 1]) if base < 2**63 else base - rng.choice([1, 2, 1025])
+        return ('INTEGER', rng.choice([1, -1]) * min(n, 2**63 - 1))
+    if k == 1:
+        w = rng.choice([2**31, 2**32, 3 * 10**9, 10**10, 2**40, 10**15, 2**53, 10**18, 10**20]) + rng.choice([-1, 0, 1])
+        return ('REAL', '%s%d.%s' % (rng.choice(['', '-']), w, rng.choice(['0', '0', '5', '25'])))
+    if k == 2:
+        return ('REAL', '%s%d.%s' % (rng.choice(['', '-']), rng.randint(0, 10**rng.randint(1, 12)), rng.choice(['0', '5', '125', '000001', '999999'])))
+    if k == 3:
+        return ('REAL', '0.%s%d' % ('0' * rng.randint(0, 8), rng.randint(1, 999)))
+    if k == 4:
+        return ('INTEGER', rng.randint(-10**rng.randint(1, 18), 10**rng.randint(1, 18)))
+    return ('REAL', '%d.0' % rng.randint(0, 10**rng.randint(1, 15)))
+
 def expr_of(v):
     ty, x = v
     if ty == 'STRING': return pstr(x)
@@ -60,7 +78,7 @@ def generate(tier, rng):
     for c in combos:
         cases.append(session_case([list(s) for s in c], 'exhaustive'))
     for k in range(40 if tier == 'quick' else 400):
-        sessions = [[rng.choice(VALUES) for _ in range(rng.randint(0, 4))] for _ in range(rng.randint(1, 4))]
+        sessions = [[rng.choice(VALUES) if rng.random() < 0.5 else rand_numeric(rng) for _ in range(rng.randint(0, 4))] for _ in range(rng.randint(1, 4))]
         cases.append(session_case(sessions, 'random'))
     for content, tag in [(b'', 'empty'), (b'one\n', 'nl'), (b'one', 'nonl'), (b'a\nb\n', 'nl2'), (b'a\nb', 'nonl2'), (b'\n', 'blank'), (b'\n\n', 'blank2'), (b'a\n\n', 'trailing-blank'),
                          (b'  \n#\n', 'odd'), (b'x' * 300 + b'\nshort\n', 'long')]:
@@ -92,7 +110,9 @@ def intrinsic(case, io, ia):
             if inner is None: return 'malformed trace line %r' % ln
             if ty == 'REAL':
                 try:
-                    if abs(float(inner) - float(x)) > 5e-7: return 'REAL %s was written as %r' % (x, inner)
+                    txt = inner[:-2] if 'e' in inner and inner.endswith('.0') else inner      # the printer appends ".0" to an exponent form
+                    # accurate to 6 decimals, or to the 10 significant digits the REAL printer keeps
+                    if abs(float(txt) - float(x)) > 5e-7 + 1e-9 * abs(float(x)): return 'REAL %s was written as %r' % (x, inner)
                 except ValueError:
                     return 'REAL %s was written as %r' % (x, inner)
             else:
